@@ -1,7 +1,7 @@
 """Expected content of a typelib, derived independently from the GIR text (docs/gir-1.2.rnc, the format comments in
 gitypelib-internal.h), and the same neutral form computed from the independent decode (vt/typelib.py).  Used by C06
 (compiler output == GIR), C15 (scanner output accepted) and C09 (readers report what the blobs contain)."""
-import collections, ctypes
+import collections, ctypes, math, struct
 from . import girx
 
 _SZ = {'gchar': ('gint8', 1), 'guchar': ('guint8', 1), 'gshort': ('gint16', 2), 'gushort': ('guint16', 2), 'gint': ('gint32', 4),
@@ -158,7 +158,7 @@ class Expect(object):
                 'ret_attributes': self.attrs(rv) if rv is not None else []}
 
     def attrs(self, n):
-        return sorted((a.get('name'), a.get('value')) for a in n.findall('attribute')) if n is not None else []
+        return sorted([a.get('name'), a.get('value')] for a in n.findall('attribute')) if n is not None else []
 
     def visible(self, n):
         return n.get('introspectable') != '0' and n.get('shadowed-by') is None
@@ -208,6 +208,7 @@ class Expect(object):
 
     def signal(self, s):
         when = s.get('when')
+        when = when.lower() if when else when
         if when is None:
             return {'name': s.get('name'), 'run_first': ANY, 'run_last': ANY, 'run_cleanup': ANY,
                     'no_recurse': s.get('no-recurse') == '1', 'detailed': s.get('detailed') == '1', 'action': s.get('action') == '1',
@@ -235,7 +236,7 @@ class Expect(object):
         elif kind in ('struct', 'union'):
             e.update(gtype_name=n.get('glib:type-name'), gtype_init=n.get('glib:get-type'), fields=self.fields(n), methods=self.methods(n))
             if kind == 'struct':
-                e.update(is_gtype_struct=n.get('glib:is-gtype-struct-for') is not None, foreign=n.get('foreign') == '1',
+                e.update(is_gtype_struct=(n.get('glib:is-gtype-struct-for') is not None or n.get('glib:is-gtype-struct') == '1'), foreign=n.get('foreign') == '1',
                          copy_func=n.get('copy-function'), free_func=n.get('free-function'))
         elif kind == 'boxed':
             e.update(gtype_name=n.get('glib:type-name'), gtype_init=n.get('glib:get-type'))
@@ -246,8 +247,16 @@ class Expect(object):
                     v = int(m.get('value'), 0) if not (m.get('value') or '').lstrip('-').isdigit() else int(m.get('value'))
                 except (TypeError, ValueError):
                     v = None
-                vals.append({'name': m.get('name'), 'value32': (v & 0xffffffff) if v is not None else None, 'c_identifier': m.get('c:identifier'),
-                             'attributes': self.attrs(m)})
+                mattrs = self.attrs(m)
+                cid = m.get('c:identifier')
+                if cid is None:
+                    # g-ir-generate writes it the way the typelib stores it: as an attribute
+                    for a in mattrs:
+                        if a[0] == 'c:identifier':
+                            cid = a[1]
+                    mattrs = [a for a in mattrs if a[0] != 'c:identifier']
+                vals.append({'name': m.get('name'), 'value32': (v & 0xffffffff) if v is not None else None, 'c_identifier': cid,
+                             'attributes': mattrs})
             e.update(gtype_name=n.get('glib:type-name'), gtype_init=n.get('glib:get-type'), values=vals, error_domain=n.get('glib:error-domain'),
                      methods=self.methods(n))
         elif kind == 'object':
@@ -284,6 +293,11 @@ class Expect(object):
             elif tn in ('gfloat', 'gdouble'):
                 try:
                     val = float(v)
+                    if tn == 'gfloat':       # stored as a 32-bit float
+                        try:
+                            val = struct.unpack('<f', struct.pack('<f', val))[0]
+                        except OverflowError:
+                            val = math.copysign(math.inf, val)
                 except (TypeError, ValueError):
                     val = None
             elif tn in ('utf8', 'filename'):
@@ -335,7 +349,7 @@ class FromTypelib(object):
         return [k]
 
     def attrs(self, d):
-        return sorted(self.tl.attributes_of(d['_offset'])) if d is not None and '_offset' in d else []
+        return sorted([k, v] for k, v in self.tl.attributes_of(d['_offset'])) if d is not None and '_offset' in d else []
 
     def arg(self, a):
         return {'name': a['name'], 'direction': a['direction'], 'caller_allocates': bool(a['caller_allocates']), 'nullable': bool(a['nullable']),
@@ -345,7 +359,7 @@ class FromTypelib(object):
     def signature(self, s):
         return {'args': [self.arg(a) for a in s['arguments']], 'ret': self.type(s['return_type']), 'ret_transfer': s['return_transfer'],
                 'may_return_null': bool(s['may_return_null']), 'skip_return': bool(s['skip_return']), 'throws': bool(s['throws']),
-                'instance_transfer': bool(s['instance_transfer_ownership']), 'ret_attributes': sorted(self.tl.attributes_of(s['_offset']))}
+                'instance_transfer': bool(s['instance_transfer_ownership']), 'ret_attributes': sorted([k, v] for k, v in self.tl.attributes_of(s['_offset']))}
 
     def function(self, f, in_type=False):
         return {'name': f['name'], 'symbol': f['symbol'], 'constructor': bool(f['constructor']),
@@ -408,7 +422,7 @@ class FromTypelib(object):
             for v in b['values']:
                 at = dict(self.tl.attributes_of(v['_offset']))
                 vals.append({'name': v['name'], 'value32': v['value'] & 0xffffffff, 'c_identifier': at.pop('c:identifier', None),
-                             'attributes': sorted(at.items())})
+                             'attributes': sorted([k, v] for k, v in at.items())})
             out.update(gtype_name=b['gtype_name'], gtype_init=b['gtype_init'], values=vals, error_domain=b.get('error_domain'),
                        methods=[self.function(m, True) for m in b['methods']])
         elif kind == 'object':
@@ -465,9 +479,8 @@ def diff(a, b, path=''):
             if d:
                 return d
         return None
-    if isinstance(a, float) and isinstance(b, (float, int)):
-        if abs(a - b) <= 1e-6 * max(1.0, abs(a)):
-            return None
+    if isinstance(a, float) and isinstance(b, float) and math.isnan(a) and math.isnan(b):
+        return None
     return '%s: GIR says %r, typelib has %r' % (path, a, b)
 
 
